@@ -110,4 +110,25 @@ REFACTORS = [
     # S32: worklist loop of ChangeGraph::load written as loop + let-else
     ("s32", "crates/radicle-cob/src/change_graph.rs", "        while let Some(child_id) = child_ids.pop() {\n            // Skip if we already processed this node.",
      "        loop {\n            let Some(child_id) = child_ids.pop() else {\n                break;\n            };\n            // Skip if we already processed this node.", 1),
+    # S33: Fetcher::is_target_reached with if/else instead of then_some
+    ("s33", R + "node/sync/fetch.rs", "                None => (succeeded >= min).then_some(SuccessfulOutcome::MinReplicas { succeeded }),",
+     "                None => {\n                    if min <= succeeded {\n                        Some(SuccessfulOutcome::MinReplicas { succeeded })\n                    } else {\n                        None\n                    }\n                }", 1),
+    # S34: Announcer::synced_with with the test inverted
+    ("s34", R + "node/sync/announce.rs", "        if node == self.local_node {\n            return ControlFlow::Continue(self.progress());\n        }\n        self.to_sync.remove(&node);\n        self.synced.insert(node, SyncStatus::Synced { duration });\n        self.finished()",
+     "        if node != self.local_node {\n            self.to_sync.remove(&node);\n            self.synced.insert(node, SyncStatus::Synced { duration });\n            return self.finished();\n        }\n        ControlFlow::Continue(self.progress())", 1),
+    # S35: include_node by De Morgan
+    ("s35", R + "node/sync/fetch.rs", "    fn include_node(&self, node: &NodeId) -> bool {\n        self.results.get(node).is_none() && self.local_node != *node\n    }",
+     "    fn include_node(&self, node: &NodeId) -> bool {\n        !(self.results.get(node).is_some() || self.local_node == *node)\n    }", 1),
+    # S36: Fetcher::finish with if-let
+    ("s36", R + "node/sync/fetch.rs", "        match self.is_target_reached() {\n            None => {\n                let missing = self.missing_seeds();\n                FetcherResult::target_error(progress, self.target, self.results, missing)\n            }\n            Some(outcome) => FetcherResult::target_reached(outcome, progress, self.results),\n        }",
+     "        if let Some(outcome) = self.is_target_reached() {\n            FetcherResult::target_reached(outcome, progress, self.results)\n        } else {\n            let missing = self.missing_seeds();\n            FetcherResult::target_error(progress, self.target, self.results, missing)\n        }", 1),
+    # S37: Announcer::is_target_reached with the preferred test as an early return
+    ("s37", R + "node/sync/announce.rs", "        let reached_preferred = self.target.preferred_seeds.is_empty()\n            || preferred >= self.target.preferred_seeds.len();\n",
+     "        let reached_preferred = if self.target.preferred_seeds.is_empty() {\n            true\n        } else {\n            self.target.preferred_seeds.len() <= preferred\n        };\n", 1),
+    # S38: fetch_complete with the eligibility test in line
+    ("s38", R + "node/sync/fetch.rs", "        if self.include_node(&node) {\n            self.results.push(node, result);\n        }",
+     "        if self.results.get(&node).is_none() && node != self.local_node {\n            self.results.push(node, result);\n        }", 1),
+    # S39: Fetcher::success_counts as a for loop
+    ("s39", R + "node/sync/announce.rs", "    fn synced(self) -> Self {\n        Self {\n            synced: self.synced + 1,\n            ..self\n        }\n    }",
+     "    fn synced(mut self) -> Self {\n        self.synced += 1;\n        self\n    }", 1),
 ]
